@@ -107,6 +107,9 @@ class Machine:
     def run(self, func, cfg):
         """run a function body from cfg; returns configurations at its exits"""
         self.configs.add(cfg[:3])
+        from ..inline import normalised
+
+        func = normalised(self.prog, func)  # newly extracted helpers (e.g. a shared "defer this step" method) are analysed in place
         ex = _Exec(self, func)
         o = ex.run(func.node, cfg)
         return (o.normal | o.ret) or {cfg}
@@ -245,7 +248,7 @@ class _Exec(Flow):
         if name in ('addCallbacks', 'addCallback', 'addBoth') and call.args:
             tgt = self.prog.resolve_in(call.args[0], self.f)
             fn = self.prog.func_of(tgt)
-            if fn is not None and (fn.parent is self.f or (fn.cls is not None and fn.cls.qname == FSM)) and pend:
+            if fn is not None and ((fn.parent is not None and fn.parent.qname == self.f.qname) or (fn.cls is not None and fn.cls.qname == FSM)) and pend:
                 return ((state, trans, prior, pend + (fn.qname,), dt),)
             return (st,)
         if self._fsm_expr(f.value) or sym == FSM + '.' + name:
